@@ -78,6 +78,13 @@ def gen_case(ctx, stream, idx):
     elif k_ < 0.6:
         from vcdd.gen import docgen
         ir["doc"] = docgen.header(r, r.randint(1, 3))  # several lines / paragraphs of prose about the interface itself
+        if rr.random() < 0.3 and "\n" in ir["doc"]:
+            # a markdown hard line break: two blanks at the end of a line that is not the last
+            lines_ = ir["doc"].split("\n")
+            k_line = rr.randrange(len(lines_) - 1)
+            if lines_[k_line].strip():
+                lines_[k_line] += "  "
+                ir["doc"] = "\n".join(lines_)
     if ir["params"] and r.random() < 0.25:
         # identifiers with a meaning elsewhere in the code base: a name ending in `kwargs` keeps its declared type
         from collections import OrderedDict
